@@ -70,6 +70,7 @@ def gen_history(r: random.Random, profile: str = "mix") -> Dict[str, Any]:
     p_tick = r.choice([0.05, 0.15, 0.3])
     p_toggle = r.choice([0.0, 0.0, 0.05, 0.15])
     p_hostile = r.choice([0.0, 0.0, 0.03, 0.08])
+    reform = r.random() < 0.06  # tick-size reforms between steps
     bigvol = r.random() < 0.15
     typed = r.random() < 0.2  # order fields computed with NumPy / float arithmetic (same values, other types)
     ops: List[Dict[str, Any]] = []
@@ -192,6 +193,8 @@ def gen_history(r: random.Random, profile: str = "mix") -> Dict[str, Any]:
             ops.append(op)
         elif u < p_cancel + p_tick:
             ops.append({"k": "tick"})
+            if reform and r.random() < 0.15:
+                ops.append({"k": "retick", "m": r.randrange(n_markets), "tick": r.choice([1.0, 0.25, 8.0, 0.5, 2.0, 0.1, 3.0])})
         elif u < p_cancel + p_tick + p_toggle:
             m = r.randrange(n_markets)
             ops.append({"k": "run", "m": m, "v": r.random() < 0.5})
@@ -214,6 +217,8 @@ def gen_history(r: random.Random, profile: str = "mix") -> Dict[str, Any]:
            "knobs": {"storage_chunk": r.choice([None, None, 2, 3, 5])}, "taps": False}
     if r.random() < 0.12:
         scn["logger"] = False  # a run without any logger: nothing keeps the log objects alive
+    if r.random() < 0.12:
+        scn["settle"] = "batched"  # fills of several rounds and markets settled with one call
     return scn
 
 
